@@ -46,3 +46,13 @@ add("C01",
     "agreement of the four query forms and independence of unrelated objects.",
     "stated_not_proved: C01_sandwich, C01_exact, C01_independent as invariants over all declaration histories (evaluated by the oracle on every answer).",
     "Lean 4 proof (partial: witness + reachability of cached orders) + differential correspondence + sandwich oracle", "6/C01")
+add("C12",
+    "Theorems over all name/module strings and all operand identities (Lean's code-point lexicographic String order = Python's str order): C12_eq_iff "
+    "(== iff equal (name, module)), C12_hash, C12_trichotomy / C12_lt_irrefl / C12_lt_trans (strict total order), C12_derived (<=, >, >=, != and reflected forms), "
+    "C12_none_last (all six operators, both operand orders, interfaces and class specifications), C12_mixed_order + C12_impl_identity (class specifications ordered "
+    "with interfaces by the same key, identity equality), C12_twin (IB_richcompare = Python reference on every operand incl. foreign objects), C12_lt_by_key + "
+    "C12_sort (what sorted() sees is a function of the keys alone; result is an ordered permutation). The model of CPython's operator protocol and of both twins is "
+    "compared with the real code on every ordered pair x 6 operators + hash relation + sorts, on 2 implementations x 3 PYTHONHASHSEED values, and every answer is "
+    "judged against the statement.",
+    "Guards: foreign operands have string __name__/__module__ (the non-string case is the C10 finding); no operand's type subclasses the other's.",
+    "Lean 4 proof (order laws + twin equality + sorting) + differential correspondence x hash seeds + statement oracle", "6/C12")
